@@ -50,7 +50,8 @@ def build(case: dict[str, Any], with_transforms: bool) -> tuple[EnOptConfig, Aff
     transforms = None
     if with_transforms:
         transforms = OptModelTransforms(
-            variables=VariableScaler(np.array(case["vscale"]), np.array(case["voff"])) if case["use_v"] else None,
+            variables=VariableScaler(None if case.get("v_kind") == "offsets" else np.array(case["vscale"]),
+                                     None if case.get("v_kind") == "scales" else np.array(case["voff"])) if case["use_v"] else None,
             objectives=ObjectiveScaler(case["oscale"]) if case["use_o"] else None,
             nonlinear_constraints=ConstraintScaler(case["cscale"]) if case["use_c"] and c_n else None,
         )
@@ -86,12 +87,21 @@ def run_case(case: dict[str, Any]) -> dict[str, Any]:
         check(bool(np.all(np.abs(back - x_user) <= 1e-12 * (1 + np.abs(x_user)))), "round-trip", f"from(to(x)) = {back.tolist()} != {x_user.tolist()}", case)
         check(bool(np.all(np.abs(transforms.variables.from_optimizer(x_opt) - x_user) <= 1e-12 * (1 + np.abs(x_user)))), "round-trip",
               "validated initial values are not the optimizer-domain image of the configured ones", case)
-    f_t, g_t = EnsembleEvaluator(cfg_t, transforms, ev_t, mgr_t).calculate(x_opt, compute_functions=True, compute_gradients=True)
-    f_u, g_u = EnsembleEvaluator(cfg_u, None, ev_u, mgr_u).calculate(x_user, compute_functions=True, compute_gradients=True)
+    ens_t, ens_u = EnsembleEvaluator(cfg_t, transforms, ev_t, mgr_t), EnsembleEvaluator(cfg_u, None, ev_u, mgr_u)
+    if case.get("split"):  # functions first, then a gradient-only request at the same point
+        (f_t,) = ens_t.calculate(x_opt, compute_functions=True, compute_gradients=False)
+        (g_t,) = ens_t.calculate(x_opt, compute_functions=False, compute_gradients=True)
+        (f_u,) = ens_u.calculate(x_user, compute_functions=True, compute_gradients=False)
+        (g_u,) = ens_u.calculate(x_user, compute_functions=False, compute_gradients=True)
+    else:
+        f_t, g_t = ens_t.calculate(x_opt, compute_functions=True, compute_gradients=True)
+        f_u, g_u = ens_u.calculate(x_user, compute_functions=True, compute_gradients=True)
     # evaluator sees the same user-domain rows
-    close(case, ev_t.calls[0]["variables"], ev_u.calls[0]["variables"], 1e-9, "evaluator-rows", "variables handed to the evaluator")
-    check(bool(np.array_equal(ev_t.calls[0]["realizations"], ev_u.calls[0]["realizations"])) and
-          bool(np.array_equal(ev_t.calls[0]["perturbations"], ev_u.calls[0]["perturbations"])), "evaluator-rows", "labels differ", case)
+    check(len(ev_t.calls) == len(ev_u.calls), "evaluator-rows", "different number of evaluator calls", case)
+    for c_t, c_u in zip(ev_t.calls, ev_u.calls):
+        close(case, c_t["variables"], c_u["variables"], 1e-9, "evaluator-rows", "variables handed to the evaluator")
+        check(bool(np.array_equal(c_t["realizations"], c_u["realizations"])) and
+              bool(np.array_equal(c_t["perturbations"], c_u["perturbations"])), "evaluator-rows", "labels differ", case)
     fu_t, gu_t = f_t.transform_from_optimizer(transforms), g_t.transform_from_optimizer(transforms)
     close(case, fu_t.evaluations.variables, f_u.evaluations.variables, 1e-9, "result-variables", "variables")
     close(case, fu_t.evaluations.objectives, f_u.evaluations.objectives, 1e-9, "result-values", "per-realization objectives")
@@ -100,6 +110,7 @@ def run_case(case: dict[str, Any]) -> dict[str, Any]:
     close(case, fu_t.functions.constraints, f_u.functions.constraints, 1e-9, "result-functions", "constraint functions")
     close(case, gu_t.evaluations.perturbed_variables, g_u.evaluations.perturbed_variables, 1e-9, "result-variables", "perturbed variables")
     close(case, gu_t.evaluations.perturbed_objectives, g_u.evaluations.perturbed_objectives, 1e-9, "result-values", "perturbed objectives")
+    close(case, gu_t.evaluations.perturbed_constraints, g_u.evaluations.perturbed_constraints, 1e-9, "result-values", "perturbed constraints")
     ci_t, ci_u = fu_t.constraint_info, f_u.constraint_info
     check((ci_t is None) == (ci_u is None), "constraint-info", "constraint info present in only one run", case)
     if ci_t is not None:
@@ -129,7 +140,7 @@ def run_case(case: dict[str, Any]) -> dict[str, Any]:
               f"point {pt.tolist()}: user-domain feasibility pattern {(flat_u >= 0).tolist()} != optimizer-domain {(flat_t >= 0).tolist()}", case)
     pv = np.asarray(g_u.evaluations.perturbed_variables)
     hit = bool(np.any(pv <= lb_u) or np.any(pv >= ub_u))
-    scaled = case["use_v"] and any(s != 1.0 for s in case["vscale"])
+    scaled = case["use_v"] and (case.get("v_kind") != "offsets") and any(s != 1.0 for s in case["vscale"])
     return {"nontrivial": scaled and (case["L"] > 0 or hit), "hit": hit, "skipped": skipped}
 
 
@@ -180,6 +191,7 @@ def hypothesis_shard(item: dict[str, Any]) -> Collector:
             "slopes": [draw(num) for _ in range(r_n * (k_n + c_n) * n)], "offsets": [draw(num) for _ in range(r_n * (k_n + c_n))],
             "design": [draw(st.sampled_from([-1.0, 1.0, 0.5, -0.25, 3.0, 0.0])) for _ in range(r_n * p_n * n)],
             "use_v": draw(st.integers(0, 4)) > 0, "use_o": draw(st.booleans()), "use_c": draw(st.booleans()),
+            "v_kind": draw(st.sampled_from(["both", "both", "offsets", "scales"])), "split": draw(st.booleans()),
             "vscale": [draw(st.sampled_from([0.5, 2.0, 10.0, 1.0, 0.1])) for _ in range(n)],
             "voff": [draw(st.sampled_from([0.0, 1.0, -2.5])) for _ in range(n)],
             "oscale": [draw(st.sampled_from([2.0, 0.5, 100.0])) for _ in range(k_n)],
@@ -190,7 +202,7 @@ def hypothesis_shard(item: dict[str, Any]) -> Collector:
     def body(case: dict[str, Any]) -> None:
         info = run_case(case)
         col.case(case, nontrivial=info["nontrivial"], classes=(
-            "var-transform" if case["use_v"] else "no-var-transform", f"L={case['L']}", f"C={case['C']}",
+            "var-transform" if case["use_v"] else "no-var-transform", "split" if case.get("split") else "combined", f"L={case['L']}", f"C={case['C']}",
             "bound-hit" if info["hit"] else "inside", "relative" if 2 in case["types"] else "absolute"))  # noqa: PLR2004
 
     run_hypothesis(col, cases(), body, seed=item["seed"], max_examples=item["examples"])
